@@ -347,3 +347,134 @@ def struct_inits(prog, adt, include_derived=False):
             if r["rv"] == "agg" and isinstance(r["kind"], dict) and r["kind"].get("adt") == adt:
                 out.append((b, bi, dict(zip(r["kind"]["fields"], r["ops"])), r["kind"].get("variant")))
     return out
+
+
+# ------------------------------------------------------------------ interprocedural guards
+def _success_blocks(body):
+    """blocks of `body` that produce a success value (true / Some / Ok) into the return place"""
+    out = []
+    for bi, si, st in body.statements():
+        if st["s"] == "assign" and st["p"] == [0]:
+            r = st["r"]
+            if r["rv"] == "use" and r["o"].get("iv") == "1" and r["o"].get("ty") == "bool":
+                out.append(bi)
+            elif r["rv"] == "agg" and isinstance(r["kind"], dict) and r["kind"].get("variant") in ("Some", "Ok"):
+                out.append(bi)
+            elif r["rv"] == "use" and F.op_place(r["o"]) is not None:
+                out.append(bi)  # moves a computed value: conservatively a success
+    for bi, t in body.calls():
+        if t["dest"] == [0]:
+            out.append(bi)
+    return out
+
+
+def _returns_guard_value(body, specs):
+    """the body's return value *is* one of the guards (e.g. closure `|r| r.condition.is_true()`)"""
+    ds = body.defs().get(0, [])
+    if len(ds) != 1:
+        return False
+    bi, si, kind, payload = ds[0]
+    if kind == "call":
+        e = ("call", payload["f"].get("def", "?"), [body.expr(a) for a in payload["args"]], bi)
+    elif kind == "assign":
+        e = body.expr_rvalue(payload)
+    else:
+        return False
+    cur, pol = F.peel_polarity(e)
+    return any(p(strip_wrappers(cur)) and pol == t for p, t in specs)
+
+
+def callee_ensures(prog, h, specs, depth=2):
+    """every success return (true/Some/Ok) of function h is dominated by one of the guards"""
+    hb = prog.bodies.get(h)
+    if hb is None or depth < 0:
+        return False
+    if _returns_guard_value(hb, specs):
+        return True
+    succ = _success_blocks(hb)
+    if not succ:
+        return False
+    edges = guard_edges_ip(prog, hb, specs, depth - 1)
+    if not edges:
+        return False
+    return not dominated_by_cut(hb, succ, edges)
+
+
+def _expr_ensures(prog, body, e, specs, depth):
+    """a success value (Some/Ok/true) of expression e implies one of the guards"""
+    e = strip_wrappers(e)
+    if e[0] == "deref":
+        e = e[1]
+    if e[0] != "call":
+        return False
+    d = e[1]
+    if d in prog.bodies:
+        return callee_ensures(prog, d, specs, depth)
+    last = d.rsplit("::", 1)[-1]
+    if last in ("filter", "and_then", "take_if") and "option::Option" in d and len(e[2]) >= 2:
+        if _expr_ensures(prog, body, e[2][0], specs, depth):
+            return True
+        for c in _closures_in(e[2][1]):
+            if callee_ensures(prog, c, specs, depth):
+                return True
+        return False
+    if last in ("as_ref", "as_deref", "copied", "cloned", "as_mut", "map", "ok", "is_some", "is_ok") and e[2]:
+        return _expr_ensures(prog, body, e[2][0], specs, depth)
+    return False
+
+
+def _closures_in(e, depth=0):
+    out = []
+    if depth > 5 or not isinstance(e, tuple):
+        return out
+    if e[0] == "closure":
+        out.append(e[1])
+    elif e[0] == "agg":
+        if isinstance(e[1], dict) and "closure" in e[1]:
+            out.append(e[1]["closure"])
+        for x in e[2]:
+            out += _closures_in(x, depth + 1)
+    elif e[0] in ("call", "callop"):
+        for x in e[2]:
+            out += _closures_in(x, depth + 1)
+    elif e[0] in ("cast", "deref"):
+        out += _closures_in(e[1], depth + 1)
+    return out
+
+
+def guard_edges_ip(prog, body, specs, depth=2):
+    """guard_edges_multi plus: an edge on which a helper call returned true/Some/Ok counts when
+    every success return of the helper (or of the closure given to Option::filter) is itself
+    dominated by the guard — so moving a check into a helper does not hide it"""
+    out = list(guard_edges_multi(body, specs))
+    if depth < 0:
+        return out
+    for bi, e, targets, otherwise in body.switch_edges():
+        cur, pol = F.peel_polarity(e)
+        succ_targets = None
+        if cur[0] == "discr":
+            inner = strip_wrappers(cur[1])
+            if inner[0] == "call" and inner[1].endswith("::branch") and inner[2]:
+                # Try::branch: 0 = Continue
+                if _expr_ensures(prog, body, inner[2][0], specs, depth):
+                    succ_targets = [t for v, t in targets if v == 0] or [otherwise]
+            elif _expr_ensures(prog, body, inner, specs, depth):
+                # Option: Some == 1 ; Result: Ok == 0. Decide by the callee's return type.
+                is_result = False
+                ie = inner[1] if inner[0] == "deref" else inner
+                if ie[0] == "call":
+                    hb = prog.bodies.get(ie[1])
+                    if hb is not None:
+                        is_result = hb.local_ty(0).startswith("core::result::Result")
+                want = 0 if is_result else 1
+                succ_targets = [t for v, t in targets if v == want]
+                if not succ_targets and not any(v == want for v, _ in targets):
+                    succ_targets = [otherwise]
+        elif cur[0] == "call" and _expr_ensures(prog, body, cur, specs, depth):
+            tt, ft = F.bool_targets(targets, otherwise)
+            succ_targets = tt if pol else ft
+        if succ_targets:
+            for t in succ_targets:
+                if (bi, t) not in out:
+                    out.append((bi, t))
+    return out
